@@ -30,6 +30,7 @@ Definition run_line (fx : fxcfg) (cfg : ccfg) (w : wcfg) (line : bytes) : bytes 
       else if bytes_eqb p (s2b "SERJ") then run_serj args
       else if bytes_eqb p (s2b "RTJ") then run_rtj cfg w args
       else if bytes_eqb p (s2b "REG") then run_reg cfg args
+      else if bytes_eqb p (s2b "XGATE") then s2b "*"    (* gates of an extension profile: judged by the oracle (gate = the profile's Validate) *)
       else if bytes_eqb p (s2b "ALL") then s2b "*"      (* every entry point on arbitrary bytes: judged by the no-panic / allocation oracles *)
       else if bytes_eqb p (s2b "PUR") then run_pur fx cfg w args
       else if bytes_eqb p (s2b "CONC") then run_conc fx cfg w args
